@@ -75,6 +75,17 @@ func checkC01Alias(res *Result, S *Streams) {
 		res.ok(rule, "streams/impl", "-", "a property read under \"<alias>:<name>\" is written under the same spelling")
 	}
 
+	// (c) per type: the unknown-member filter must compare keys in the spelling the readers use
+	if ok, nT, ex := claimsIgnoreAlias(S); nT > 0 {
+		if !ok {
+			res.Add(Oblig{Rule: rule, Func: "streams/impl", Pos: "-", Key: rule + "|streams/impl|claimed member names ignore the vocabulary alias",
+				Desc: "a type claims its members in the spelling its property readers look them up (with the alias, when the document sets one)", Verdict: VIOLATION,
+				Detail: fmt.Sprintf("%d of %d types compare the keys of the document with the plain member names only (e.g. %s): in a document that aliases the vocabulary every known member is interpreted by its property AND kept among the unknown members, which are written back verbatim — also after the typed property was changed or cleared", len(ex), nT, strings.Join(ex[:min(len(ex), 3)], ", "))})
+		} else {
+			res.ok(rule, "streams/impl", "-", "a type claims its members in the spelling its property readers look them up")
+		}
+	}
+
 	// (a) orientation of the @context object
 	sp := loadStreamsRootSSA()
 	if sp == nil {
@@ -147,4 +158,36 @@ func checkC01Alias(res *Result, S *Streams) {
 	} else {
 		res.ok(rule, "toAliasMap", readerPos, "the @context object is read in the orientation it is written")
 	}
+}
+
+
+// claimsIgnoreAlias: for every generated type, are the member names of its vocabulary
+// properties claimed under the alias-prefixed spelling the property readers look them up under
+// (k == <prefix of the vocabulary's alias> + "name")? Returns ok, the number of types examined
+// and the names of the types with at least one vocabulary member claimed plain.
+func claimsIgnoreAlias(S *Streams) (bool, int, []string) {
+	M := loadGenModel()
+	var bad []string
+	n := 0
+	for _, tm := range M.Types {
+		tt := extractTypeTables(M, tm)
+		if len(tt.claimed) == 0 {
+			continue
+		}
+		n++
+		plain := false
+		for _, pm := range tm.Fields {
+			if pm.VocabURI == "" {
+				continue // JSON-LD id / type: never aliased
+			}
+			if u, claimed := tt.claimedVocab[pm.Name]; claimed && u == "" {
+				plain = true
+			}
+		}
+		if plain {
+			bad = append(bad, tm.G.Name)
+		}
+	}
+	sort.Strings(bad)
+	return len(bad) == 0, n, bad
 }
